@@ -217,6 +217,10 @@ class C08Monitor(BookTracker):
         self.compare(mkt, book, ref, "round" if fills else "empty-round")
 
     def on_round_exc(self, ev, book, pre):
+        if not ev["running"]:
+            # refused by design; the book and all statistics must read as before
+            self.res.count("round_refused_while_not_running")
+            return
         self.res.count("round_raised(see C03/C16)")
         self.dead.add(ev["mkt"].market_id)
 
